@@ -9,8 +9,8 @@ Driver for identity resolution (C11).
          item  = root>module:name=module:name,…      one per identity statement of every loaded (sub)module
                                                      (root = its name@latest-revision),
                                                      Values in model order
-               | @root:node=declRoot>module:name~module:name,… | @root:node=-   identityref leaves/leaf-lists (direct, union
-                                                     member, local typedef) as ToEntry(root) resolves them: object + list seen
+               | @root:node=member|member…   identityref / union nodes (top level, also from a used grouping; direct or through
+                                                     local typedef chains): member = declRoot>module:name~list seen | -
          error = file:line:col:class
       -> linkfail <error>*              an include/import did not resolve (outside the C11 model)
       -> loaderr | fuel | outsideModel
@@ -35,7 +35,7 @@ def ownerText (r : Registry) (m : Mod) : String :=
   | none => "~" ++ (m.belongsTo?.getD "")
 
 def identityItems (r : Registry) (res : Result) : List String :=
-  r.mods.flatMap fun m =>
+  (tableMods r).flatMap fun m =>
     (identities m).zipIdx.map fun (s, i) =>
       let v : Vtx := (ownerText r m, s.arg)
       let vals :=
@@ -44,16 +44,17 @@ def identityItems (r : Registry) (res : Result) : List String :=
         | none => []
       m.fullName ++ ">" ++ vtxText v ++ "=" ++ ",".intercalate (vals.map vtxText)
 
-/-- `@root:node=declaringRoot>module:name~v,…`: the identity object the type points at (by the
-(sub)module revision that declares it) and the list seen through it. -/
-def leafItems (r : Registry) (res : Result) (leaves : List (String × String × Except Err DEntry)) : List String :=
-  leaves.map fun (root, leaf, x) =>
-    "@" ++ root ++ ":" ++ leaf ++ "=" ++
-      (match x with
-       | .ok e =>
-         (match r.byId e.root with | some m => m.fullName | none => "?") ++ ">" ++ vtxText e.vtx ++ "~" ++
-           ",".intercalate ((res.vals e.vtx).map vtxText)
-       | .error _ => "-")
+/-- `@root:node=member|member|…`, member = `declaringRoot>module:name~v,…` (the identity object the
+type points at, by the (sub)module revision that declares it, and the list seen through it) or `-`. -/
+def leafItems (r : Registry) (res : Result)
+    (leaves : List (String × String × List (Option DEntry) × List Err)) : List String :=
+  leaves.map fun (root, leaf, ms, _) =>
+    "@" ++ root ++ ":" ++ leaf ++ "=" ++ "|".intercalate (ms.map fun x =>
+      match x with
+      | some e =>
+        (match r.byId e.root with | some m => m.fullName | none => "?") ++ ">" ++ vtxText e.vtx ++ "~" ++
+          ",".intercalate ((res.vals e.vtx).map vtxText)
+      | none => "-")
 
 def encAll (l : List String) : String := String.join (l.map fun s => " " ++ encStr s)
 
@@ -86,32 +87,21 @@ def parseIdentityItem (s : String) : Option (String × (String × String) × Lis
     | _ => none
   | _ => none
 
-/-- The list an identityref is seen to carry: (vertex, list) from `@k=root>module:name~v,…`. -/
-def parseLeafSeen (s : String) : Option ((String × String) × List (String × String)) :=
-  if s.startsWith "@" then
-    match (s.drop 1).toString.splitOn "=" with
-    | [_, v] =>
-      match v.splitOn "~" with
-      | [obj, vs] =>
-        let vtx := match obj.splitOn ">" with
-          | [_, x] => x
-          | _ => obj
-        some (parseVertex vtx, if vs.isEmpty then [] else (vs.splitOn ",").map parseVertex)
-      | _ => none
-    | _ => none
-  else none
+/-- One member `declRoot>module:name~v,…` → (vertex, list seen); `-` → none. -/
+def parseMember (mtxt : String) : Option ((String × String) × List (String × String)) :=
+  match mtxt.splitOn "~" with
+  | [obj, vs] =>
+    let vtx := match obj.splitOn ">" with
+      | [_, x] => x
+      | _ => obj
+    some (parseVertex vtx, if vs.isEmpty then [] else (vs.splitOn ",").map parseVertex)
+  | _ => none
 
-/-- `@root:node=declRoot>module:name~…` → (root:node, observed vertex) -/
-def parseLeafItem (s : String) : Option (String × Option (String × String)) :=
+/-- `@root:node=member|member|…` → (root:node, the members that resolved). -/
+def parseLeafItem (s : String) : Option (String × List ((String × String) × List (String × String))) :=
   if s.startsWith "@" then
     match (s.drop 1).toString.splitOn "=" with
-    | [k, v] =>
-      -- v = declaringRoot>module:name~values
-      let obj := ((v.splitOn "~").headD "")
-      let vtx := match obj.splitOn ">" with
-        | [_, x] => x
-        | _ => obj
-      some (k, if v == "-" then none else some (parseVertex vtx))
+    | [k, v] => some (k, (v.splitOn "|").filterMap parseMember)
     | _ => none
   else none
 
@@ -125,11 +115,16 @@ def runSpec (files : List SrcFile) (items : List String) (nErrors : Nat) : Strin
       let partNames := ps.map (·.fullName)
       let vals := (items.filterMap parseIdentityItem).filterMap fun (root, v, l) =>
         if partNames.contains root then some (v, l) else none
-      -- the list seen through an identityref has to be the list of the identity it names
-      let vals := vals ++ items.filterMap parseLeafSeen
       let leaves := items.filterMap parseLeafItem
+      -- the list seen through an identityref has to be the list of the identity it names
+      let vals := vals ++ leaves.flatMap (·.2)
+      -- every identityref member written on a node has to be among the members of its resolved type
       let rfs := (refs r).map fun (m, leaf, arg) =>
-        (arg.bind (refTarget r G m), ((leaves.find? (·.1 == m.fullName ++ ":" ++ leaf)).bind (·.2)))
+        let want := arg.bind (refTarget r G m)
+        let seen := ((leaves.find? (·.1 == m.fullName ++ ":" ++ leaf)).map (·.2)).getD [] |>.map (·.1)
+        (want, match want with
+          | some w => if seen.contains w then some w else seen.head?
+          | none => seen.head?)
       match judge G vals rfs nErrors with
       | .holds => "holds"
       | .violates why => "violates " ++ encStr why
